@@ -429,14 +429,40 @@ pub fn build_problem<T: Sc>(
     w: Option<&DVector<T>>,
     eps: Option<T>,
 ) -> Result<Box<dyn DynP<T>>, String> {
+    // the ORDER of the builder calls is cycled over all six permutations from one build to the next
+    // (a deterministic global counter), and one build in five first makes each call with a junk value
+    // that the real call then overwrites: a problem must not depend on either
+    static BUILDS: std::sync::atomic::AtomicUsize = std::sync::atomic::AtomicUsize::new(0);
+    let k = BUILDS.fetch_add(1, std::sync::atomic::Ordering::Relaxed);
+    const ORDERS: [[u8; 3]; 6] = [[0, 1, 2], [1, 0, 2], [2, 1, 0], [0, 2, 1], [1, 2, 0], [2, 0, 1]];
+    let order = ORDERS[k % 6];
+    let junk = k % 5 == 3;
     macro_rules! go {
         ($ctor:ident, $obs:expr) => {{
-            let mut b = LevMarProblemBuilder::$ctor(model).observations($obs);
-            if let Some(w) = w {
-                b = b.weights(w.clone());
+            let mut b = LevMarProblemBuilder::$ctor(model);
+            if junk {
+                if eps.is_some() {
+                    b = b.epsilon(T::of(0.25));
+                }
+                if let Some(w) = w {
+                    b = b.weights(w.map(|v| v * T::of(3.0) + T::of(1.0)));
+                }
+                b = b.observations($obs.map(|v| v * T::of(-2.0)));
             }
-            if let Some(e) = eps {
-                b = b.epsilon(e);
+            for step in order {
+                match step {
+                    0 => b = b.observations($obs),
+                    1 => {
+                        if let Some(w) = w {
+                            b = b.weights(w.clone());
+                        }
+                    }
+                    _ => {
+                        if let Some(e) = eps {
+                            b = b.epsilon(e);
+                        }
+                    }
+                }
             }
             match b.build() {
                 Ok(p) => Ok(Box::new(p) as Box<dyn DynP<T>>),
